@@ -432,7 +432,8 @@ template<typename T, typename C, typename A>
 template<typename S>
 std::pair<req_compactor<T, C, A>, size_t> req_compactor<T, C, A>::deserialize(const void* bytes, size_t size,
     const S& serde, const C& comparator, const A& allocator, bool sorted, bool hra) {
-  ensure_minimum_memory(size, 8);
+  // state, section size, lg weight, number of sections, 2 bytes of padding, number of items
+  ensure_minimum_memory(size, sizeof(uint64_t) + sizeof(float) + 4 * sizeof(uint8_t) + sizeof(uint32_t));
   const char* ptr = static_cast<const char*>(bytes);
   const char* end_ptr = static_cast<const char*>(bytes) + size;
 
@@ -474,6 +475,8 @@ auto req_compactor<T, C, A>::deserialize_items(const void* bytes, size_t size, c
 -> std::pair<std::unique_ptr<T, items_deleter>, size_t> {
   const char* ptr = static_cast<const char*>(bytes);
   const char* end_ptr = static_cast<const char*>(bytes) + size;
+  // every serialized item takes at least one byte: do not let a corrupted count drive the allocation
+  if (num > size) throw std::out_of_range("Possible corruption: number of items exceeds the size of the image");
   A alloc(allocator);
   std::unique_ptr<T, items_deleter> items(alloc.allocate(num), items_deleter(allocator, false, num));
   ptr += serde.deserialize(ptr, end_ptr - ptr, items.get(), num);
